@@ -14,7 +14,7 @@ LEAN_TARGETS = ["PV.Props.C03"]
 RULE = ("cases (TLE, observer, start, length, horizon): TLEs = the near-earth element sets of pyorbital's tests / SGP4-VER "
         "plus as many random 'leo' and 'near' (eccentric, period < 225 min) element sets from tlegen; start = epoch +- 3 d; "
         "length 1-14 h (quick) / 1-72 h (thorough); horizon in {0,5,10,30,60} deg or, for grazing cases, the peak elevation of "
-        "a found pass minus 0.002-0.3 deg (passes of some 30-200 s); 40 % of the observers are put on the ground track at a "
+        "a found pass minus 0.002-0.3 deg when that lies in 0-60 deg (passes of some 30-200 s); 40 % of the observers are put on the ground track at a "
         "random instant of the window (offset 0-0.3 deg: passes culminating above 85 deg), the others are uniform on the "
         "sphere, altitude 0-3 km; derived cases start the window inside a pass or end it inside / up to 90 s after one; a "
         "case is kept only if the propagated altitude stays within 80-30000 km at every whole minute of the window; an "
@@ -302,7 +302,7 @@ def _derived(ctx, o, case):
         peak = el_at_datetime(o, p[2], obs, 0.0)
         delta = r.choice([0.002, 0.005, 0.01, 0.02, 0.05, 0.1, 0.3])
         h = peak - delta
-        if -1.0 < h < 89.0:
+        if 0.0 <= h <= 60.0:          # the statement's range of horizons
             c = dict(case)
             c["horizon"] = h
             c["kind"] = "grazing"
